@@ -49,7 +49,8 @@ def measure_cell(cc, seed):
         else:
             sv, _ = R.at_or_limit(lambda n: _combo(c, d, nf, n), at + 1.0)
             scale = max(scale, max(float(np.sum(np.abs(x))) for x in sv))
-    res = resid / scale if scale > 0 else float("inf")
+    # a combination of structural zeros vanishes identically
+    res = 0.0 if resid == 0.0 else (resid / scale if scale > 0 else float("inf"))
     return {"e": expo100(res)}, {"res": res, "abs": float(resid), "scale": scale, "limit": lim}
 
 
